@@ -90,7 +90,7 @@ def floatUnary (f : Fmt) (name : String) (b : Nat) : Option (Unit × String) :=
     some (out3 (fmtEF f ct) (if rtIsBuiltin then s else fmtEF f ct) s)
   match name with
   | "floor" => rnd .floor (Model.gcemFloor f b) true
-  | "ceil" => rnd .ceil (Model.gcemCeil f b) false          -- no dispatch: gcem on both paths
+  | "ceil" => rnd .ceil (Model.gcemCeil f b) true           -- __builtin_ceil{f,} at run time since 14d2458
   | "trunc" => rnd .trunc (Model.gcemTrunc f b) true
   | "round" => rnd .round (Model.gcemRound f b) true
   | "rint" => rnd .rint (Model.rintFallback f b) true
